@@ -19,9 +19,8 @@ JObj(s)  == "{" \o JJoin(s, ",") \o "}"            \* s : sequence of JKV texts
 JBool(b) == IF b THEN "true" ELSE "false"
 
 (* a set of JSON texts as an array, in TLC's normalised (sorted) set order *)
-RECURSIVE SetToSeq(_)
-SetToSeq(S) == IF S = {} THEN <<>>
-               ELSE LET x == CHOOSE y \in S : TRUE IN <<x>> \o SetToSeq(S \ {x})
+LOCAL SXJ == INSTANCE SequencesExt
+SetToSeq(S) == SXJ!SetToSeq(S)
 JSetArr(S) == JArr(SetToSeq(S))
 
 JIntSeq(s) == JArr([i \in DOMAIN s |-> JInt(s[i])])
